@@ -272,7 +272,7 @@ def genCall1 (arms : List Arm) (rpcOk : Bool) (version : String) (entry variant 
 
 def genSource : Source :=
   { isOracle := false, reqRoles := Gen.reqRoles, respRoles := Gen.respRoles, adExtRoles := Gen.adExtRoles,
-    reqTables := Gen.reqTables, respCase := genRespCase, adatCase := genAdatCase, u2fParse := ctap1Parse Gen.controlByteTryFrom,
+    reqTables := Gen.reqTables, respCase := genRespCase, adatCase := genAdatCase, u2fParse := runProgram Gen.u2fProgram Gen.controlByteTryFrom,
     u2fsCase := genU2fsCase, regnewCase := genRegnewCase,
     call2Case := genCall2 Gen.dispatch2 ((Gen.statusCodes.lookup Gen.largeBlobsDefaultError).getD 999) Gen.rpc2Delegates,
     call1Case := genCall1 Gen.dispatch1 Gen.rpc1Delegates Gen.versionDefault, opCase := genOpCase, vopCase := genVopCase,
